@@ -644,12 +644,17 @@ SU_vector& SU_vector::operator=(const SU_vector& other){
   if(size!=other.size){
     if(isinit_d) //can't resize
       throw std::runtime_error("Non-matching dimensions in assignment to SU_vector with external storage");
-    //can resize
+    //can resize; obtain the new storage before giving up the old, so that
+    //this vector is untouched if the allocation fails
+    double* new_components;
+    unsigned char new_offset;
+    alloc_aligned(other.dim,other.size,new_components,new_offset);
     if(isinit)
       deallocate_mem();
     dim=other.dim;
     size=other.size;
-    alloc_aligned(dim,size,components,ptr_offset);
+    components=new_components;
+    ptr_offset=new_offset;
     isinit=true;
   }
 
